@@ -182,17 +182,14 @@ func c15Encode(v c15HdrVal, certs map[string]*x509.Certificate) (value string, c
 	}
 }
 
-func c15RunOffload(x *h.Ctx, c c15OffCase) {
-	if len(c.Values) > 8 || c.HeaderCfg == "" {
-		return
-	}
-	logrus.SetOutput(io.Discard)
-	certs := c15OffCerts(x)
-	hostOf := map[string]string{c15OffDIDA: c15OffHostA, c15OffDIDV: c15OffHostV}
+var c15OffHostOf = map[string]string{c15OffDIDA: c15OffHostA, c15OffDIDV: c15OffHostV}
 
-	// the node: real TLS authenticator over real service resolver, real connection manager, real interceptor
+// c15OffNode builds the node side: real TLS authenticator over the real service resolver, real connection manager, real
+// offloading interceptor. onConnected receives the identity the observers (= the protocols) get for an accepted stream.
+func c15OffNode(x *h.Ctx, headerCfg string, crlFail bool, onConnected func(transport.Peer)) (*grpcConnectionManager, grpc.StreamServerInterceptor) {
+	logrus.SetOutput(io.Discard)
 	docs := map[string]*did.Document{}
-	for d, hst := range hostOf {
+	for d, hst := range c15OffHostOf {
 		id := did.MustParseDID(d)
 		docs[d] = &did.Document{ID: id, Service: []did.Service{{Type: transport.NutsCommServiceType, ServiceEndpoint: "grpc://" + hst + ":5555"}}}
 	}
@@ -200,31 +197,39 @@ func c15RunOffload(x *h.Ctx, c c15OffCase) {
 	cm, err := NewGRPCConnectionManager(Config{peerID: "c15-offload-server"}, nil, did.MustParseDID("did:nuts:c15offserver"), authenticator)
 	x.NoErr(err, "NewGRPCConnectionManager")
 	x.Cleanup(cm.Stop)
-	connected := make(chan transport.Peer, 4)
 	cm.RegisterObserver(func(p transport.Peer, state transport.StreamState, _ transport.Protocol) {
 		if state == transport.StateConnected {
-			connected <- p
+			onConnected(p)
 		}
 	})
-	interceptor := newAuthenticationInterceptor(c.HeaderCfg, c15PKI{fail: c.CRLFail})
+	return cm, newAuthenticationInterceptor(headerCfg, c15PKI{fail: crlFail})
+}
 
-	// incoming metadata as the transport delivers it
-	seq := c15OffSeq.Add(1)
+// c15OffRef is what the generator knows about one stream's header set.
+type c15OffRef struct {
+	single  *x509.Certificate // the certificate the proxy vouches for: defined only if there is exactly one readable value
+	robust  bool              // ... in an encoding the feature handles for every certificate
+	claimed string            // the DID the peer claims ("" if none, or if it sent two)
+	own     []*x509.Certificate
+}
+
+// c15OffMetadata renders the incoming metadata of one stream as the HTTP/2 transport delivers it.
+func c15OffMetadata(x *h.Ctx, headerCfg string, c c15OffCase, certs map[string]*x509.Certificate, peerID string) (metadata.MD, c15OffRef) {
+	ref := c15OffRef{}
 	md := metadata.MD{}
 	md.Append("user-agent", "c15")
 	for i := 0; i < c.PeerIDs; i++ {
-		md.Append(peerIDHeader, fmt.Sprintf("c15-offload-peer-%d-%d", seq, i))
+		md.Append(peerIDHeader, fmt.Sprintf("%s-%d", peerID, i))
 	}
-	claimed := ""
 	switch c.Claim {
 	case "A":
-		claimed = c15OffDIDA
+		ref.claimed = c15OffDIDA
 		md.Append(nodeDIDHeader, c15OffDIDA)
 	case "V":
-		claimed = c15OffDIDV
+		ref.claimed = c15OffDIDV
 		md.Append(nodeDIDHeader, c15OffDIDV)
 	case "unknown":
-		claimed = c15OffDIDUnknown
+		ref.claimed = c15OffDIDUnknown
 		md.Append(nodeDIDHeader, c15OffDIDUnknown)
 	case "V+A":
 		md.Append(nodeDIDHeader, c15OffDIDV, c15OffDIDA)
@@ -235,23 +240,104 @@ func c15RunOffload(x *h.Ctx, c c15OffCase) {
 	vouchedValue := url.QueryEscape(c15PEM(certs["V"]))
 	switch c.Lookalike {
 	case "-chain", "s", "_":
-		md.Append(c.HeaderCfg+c.Lookalike, vouchedValue)
+		md.Append(headerCfg+c.Lookalike, vouchedValue)
 	case "x-":
-		md.Append("x-"+c.HeaderCfg, vouchedValue)
+		md.Append("x-"+headerCfg, vouchedValue)
 	}
-	var single *x509.Certificate // the certificate the proxy vouches for: defined only if there is exactly one value
-	robust := false
 	for _, v := range c.Values {
 		val, crt, rb := c15Encode(v, certs)
 		md.Append(v.Name, val)
+		if crt != nil {
+			ref.own = append(ref.own, crt)
+		}
 		if len(c.Values) == 1 {
-			single, robust = crt, rb
+			ref.single, ref.robust = crt, rb
 		}
 	}
 	// sanity of the model: all spellings end up under the configured header's (lower-case) key
-	if got := len(md.Get(c.HeaderCfg)); got != len(c.Values) {
-		x.Fatalf("fixture: %d header values expected under %q, metadata has %d", len(c.Values), c.HeaderCfg, got)
+	if got := len(md.Get(headerCfg)); got != len(c.Values) {
+		x.Fatalf("fixture: %d header values expected under %q, metadata has %d", len(c.Values), headerCfg, got)
 	}
+	return md, ref
+}
+
+func c15OffCovers(x *h.Ctx, crt *x509.Certificate, hst string) bool {
+	if crt == nil || hst == "" {
+		return false
+	}
+	std := crt.VerifyHostname(hst) == nil
+	if own := c15Covers(c15Cert{DNS: crt.DNSNames}, hst); own != std {
+		x.Fatalf("references disagree on %q vs %v", hst, crt.DNSNames)
+	}
+	return std
+}
+
+// c15OffEntitled: the header set entitles the peer to be Authenticated for the DID it claims.
+func c15OffEntitled(x *h.Ctx, c c15OffCase, ref c15OffRef) bool {
+	return len(c.Values) == 1 && ref.single != nil && ref.claimed != "" && c15OffCovers(x, ref.single, c15OffHostOf[ref.claimed])
+}
+
+// c15OffJudge applies the per-stream oracles to the identity the observers received (seen == nil: stream refused).
+// shared: the stream ran next to others on one connection; a wrong identity built from a certificate that is not among
+// this stream's own header values then gets the suffix ":shared-connection".
+func c15OffJudge(x *h.Ctx, c c15OffCase, ref c15OffRef, seen *transport.Peer, streamErr error, shared bool, label string) {
+	covers := func(crt *x509.Certificate, hst string) bool { return c15OffCovers(x, crt, hst) }
+	idOK := c.PeerIDs == 1
+	claimOK := c.Claim == "none" || (ref.claimed != "" && covers(ref.single, c15OffHostOf[ref.claimed]))
+	mustAccept := ref.single != nil && ref.robust && !c.CRLFail && idOK && c.Claim != "V+A" && claimOK
+	suffix := ""
+	if shared && seen != nil && seen.Certificate != nil {
+		foreign := true
+		for _, o := range ref.own {
+			if o.Equal(seen.Certificate) {
+				foreign = false
+			}
+		}
+		if foreign {
+			suffix = ":shared-connection"
+		}
+	}
+	feat := fmt.Sprintf("%svalues=%d", label, len(c.Values))
+	if seen != nil {
+		if seen.Authenticated {
+			d := seen.NodeDID.String()
+			if ref.single == nil || !covers(ref.single, c15OffHostOf[d]) || d != ref.claimed {
+				x.Violate("offload:authenticated-without-single-vouched-covering-certificate"+suffix,
+					"["+feat+"] peer is registered as Authenticated for %s (claimed %q) but the client-certificate header has values %+v: there is no single certificate vouched for by the proxy that covers the NutsComm host of that DID (peer certificate SANs: %v)",
+					d, c.Claim, c.Values, c15SANs(seen.Certificate))
+			}
+		}
+		if ref.single == nil {
+			x.Violate("offload:stream-accepted-without-exactly-one-valid-certificate"+suffix,
+				"["+feat+"] inbound stream accepted (peer %+v) although the client-certificate header does not hold exactly one value with exactly one certificate: %+v", seen.ToFields(), c.Values)
+		} else if seen.Certificate == nil || !seen.Certificate.Equal(ref.single) {
+			x.Violate("offload:peer-certificate-is-not-the-vouched-one"+suffix,
+				"["+feat+"] the accepted peer carries certificate %v, the single header value holds the certificate for %v (preset TLS %q)", c15SANs(seen.Certificate), ref.single.DNSNames, c.PresetTLS)
+		}
+		if c.CRLFail {
+			x.Violate("offload:accepted-although-certificate-validation-failed", "stream accepted although CheckCRL failed")
+		}
+	} else if mustAccept && !shared {
+		// (next to other streams a refusal can be the flip side of a crossed identity; the crossing itself is what is judged there)
+		x.Violate("offload:refused-valid-single-certificate", "header holds exactly one certificate (%s, %s) that entitles the peer (claim %q), yet the stream was refused: %v",
+			c.Values[0].Cert, c.Values[0].Enc, c.Claim, streamErr)
+	}
+	if seen != nil && mustAccept && !shared && (c.Claim != "none") != seen.Authenticated {
+		x.Violate("offload:wrong-authentication-state", "claim %q, certificate %s: Authenticated=%v", c.Claim, c.Values[0].Cert, seen.Authenticated)
+	}
+}
+
+func c15RunOffload(x *h.Ctx, c c15OffCase) {
+	if len(c.Values) > 8 || c.HeaderCfg == "" {
+		return
+	}
+	certs := c15OffCerts(x)
+	connected := make(chan transport.Peer, 4)
+	cm, interceptor := c15OffNode(x, c.HeaderCfg, c.CRLFail, func(p transport.Peer) { connected <- p })
+
+	seq := c15OffSeq.Add(1)
+	md, ref := c15OffMetadata(x, c.HeaderCfg, c, certs, fmt.Sprintf("c15-offload-peer-%d", seq))
+	claimed, single := ref.claimed, ref.single
 
 	grpcPeer := &peer.Peer{Addr: &net.TCPAddr{IP: net.ParseIP("203.0.113.7"), Port: 20000 + int(seq%20000)}}
 	if c.PresetTLS != "" {
@@ -290,22 +376,9 @@ func c15RunOffload(x *h.Ctx, c c15OffCase) {
 		x.Fatalf("inbound stream neither accepted nor refused")
 	}
 
-	// reference
-	covers := func(crt *x509.Certificate, hst string) bool {
-		if crt == nil || hst == "" {
-			return false
-		}
-		std := crt.VerifyHostname(hst) == nil
-		if own := c15Covers(c15Cert{DNS: crt.DNSNames}, hst); own != std {
-			x.Fatalf("references disagree on %q vs %v", hst, crt.DNSNames)
-		}
-		return std
-	}
-	idOK := c.PeerIDs == 1
-	claimOK := c.Claim == "none" || (claimed != "" && covers(single, hostOf[claimed]))
-	mustAccept := single != nil && robust && !c.CRLFail && idOK && c.Claim != "V+A" && claimOK
-
 	// classes
+	covers := func(crt *x509.Certificate, hst string) bool { return c15OffCovers(x, crt, hst) }
+	hostOf := c15OffHostOf
 	x.Classf("values:%d", len(c.Values))
 	x.Class("claim:" + c.Claim)
 	if len(c.Values) >= 2 {
@@ -334,7 +407,8 @@ func c15RunOffload(x *h.Ctx, c c15OffCase) {
 	if c.PresetTLS != "" {
 		x.Class("preset-tls:" + c.PresetTLS)
 	}
-	if !(len(c.Values) == 1 && single != nil && claimed != "" && covers(single, hostOf[claimed])) {
+	_ = single
+	if !c15OffEntitled(x, c, ref) {
 		x.NonTrivial() // the peer is not entitled to an authenticated identity
 	}
 	switch {
@@ -346,37 +420,7 @@ func c15RunOffload(x *h.Ctx, c c15OffCase) {
 		x.Class("outcome:accepted-unauthenticated")
 	}
 
-	// oracle
-	feat := fmt.Sprintf("values=%d", len(c.Values))
-	if len(c.Values) > 3 {
-		feat = "values>3"
-	}
-	if seen != nil {
-		if seen.Authenticated {
-			d := seen.NodeDID.String()
-			if single == nil || !covers(single, hostOf[d]) || d != claimed {
-				x.Violate("offload:authenticated-without-single-vouched-covering-certificate",
-					"["+feat+"] peer is registered as Authenticated for %s (claimed %q) but the client-certificate header has values %+v: there is no single certificate vouched for by the proxy that covers the NutsComm host of that DID (peer certificate SANs: %v)",
-					d, c.Claim, c.Values, c15SANs(seen.Certificate))
-			}
-		}
-		if single == nil {
-			x.Violate("offload:stream-accepted-without-exactly-one-valid-certificate",
-				"["+feat+"] inbound stream accepted (peer %+v) although the client-certificate header does not hold exactly one value with exactly one certificate: %+v", seen.ToFields(), c.Values)
-		} else if seen.Certificate == nil || !seen.Certificate.Equal(single) {
-			x.Violate("offload:peer-certificate-is-not-the-vouched-one",
-				"the accepted peer carries certificate %v, the single header value holds the certificate for %v (preset TLS %q)", c15SANs(seen.Certificate), single.DNSNames, c.PresetTLS)
-		}
-		if c.CRLFail {
-			x.Violate("offload:accepted-although-certificate-validation-failed", "stream accepted although CheckCRL failed")
-		}
-	} else if mustAccept {
-		x.Violate("offload:refused-valid-single-certificate", "header holds exactly one certificate (%s, %s) that entitles the peer (claim %q), yet the stream was refused: %v",
-			c.Values[0].Cert, c.Values[0].Enc, c.Claim, streamErr)
-	}
-	if seen != nil && mustAccept && (c.Claim != "none") != seen.Authenticated {
-		x.Violate("offload:wrong-authentication-state", "claim %q, certificate %s: Authenticated=%v", c.Claim, c.Values[0].Cert, seen.Authenticated)
-	}
+	c15OffJudge(x, c, ref, seen, streamErr, false, "")
 }
 
 func c15SANs(c *x509.Certificate) []string {
